@@ -48,7 +48,7 @@ STANDARD_P2P_MESSAGES = {
     "mempool": "",
     "feefilter": "fee_filter_value:Q",
     "sendcmpct": "enabled:b version:Q",
-    "cmpctblock": "header_hash:# nonce:Q short_ids:[6] prefilled_txs:[IT]",
+    "cmpctblock": "header:z nonce:Q short_ids:[6] prefilled_txs:[IT]",
     "getblocktxn": "header_hash:# indices:[I]",
     "blocktxn": "header_hash:# txs:[T]",
     # 'checkorder': obsolete
